@@ -52,7 +52,7 @@ def plan(tier, seed):
 
 def thresholds(tier):
   t = {"mutants_judged": 800, "legal_elaborations": 400, "kinds_with_5": len(KINDS) - 2, "elaborations": 3000, "holey_defects_judged": 80,
-       "holey_list_designs_with_leading_hole": 60}
+       "holey_list_designs_with_leading_hole": 60, "lambda_variant_designs": 200, "lambda_variant_defects_judged": 60}
   if tier == "thorough":
     t.update({"mutants_judged": 15000, "legal_elaborations": 8000, "elaborations": 60000})
   return t
@@ -474,9 +474,86 @@ def run_holey(sh, case):
     G.unload(mod)
 
 
+LAMBDA_VAR_SRC = """
+from pymtl3 import *
+class LLeaf(Component):
+  def construct(s):
+    s.in_ = InPort(8); s.out = OutPort(8); s.w = Wire(8)
+    @update
+    def up_leaf():
+      s.w @= s.in_ + 1
+      s.out @= s.w
+class LStage(Component):
+  # the expression of the lambda connection is chosen by a construct parameter
+  def construct(s, variant):
+    s.in_ = InPort(8); s.out = OutPort(8); s.leaf = LLeaf()
+    s.leaf.in_ //= s.in_
+    if variant == "plain":           # ( a lambda connection has to stand on a line of its own )
+      s.out //= lambda: s.leaf.out + 1
+    elif variant == "biased":
+      s.bias = Wire(8)
+      @update
+      def up_bias(): s.bias @= 3
+      s.out //= lambda: s.leaf.out + s.bias
+    elif variant == "input":
+      s.out //= lambda: s.in_ ^ 0x55
+    elif variant == "peek":          # ILLEGAL: reads a wire of a child
+      s.out //= lambda: s.leaf.w + 1
+class LTop(Component):
+  def construct(s, variants):
+    s.in_ = InPort(8); s.o = [OutPort(8) for _ in variants]
+    s.st = [LStage(v) for v in variants]
+    for k in range(len(variants)):
+      s.st[k].in_ //= s.in_; s.o[k] //= s.st[k].out
+"""
+
+
+def run_lambda_variants(sh, case):
+  """several instances of ONE class whose lambda connection differs with a construct parameter (lambda blocks are per instance):
+  a design holding an illegal variant is rejected whatever position the offending instance has, a design of legal variants
+  elaborates in every order and computes each instance's own expression"""
+  from pymtl3 import DefaultPassGroup
+  rng = sh.rng("lambdavar", case)
+  n = rng.randrange(2, 5)
+  legal = [rng.choice(["plain", "biased", "input"]) for _ in range(n)]
+  if len(set(legal)) == 1: legal[rng.randrange(n)] = rng.choice([v for v in ("plain", "biased", "input") if v != legal[0]])
+  bad = rng.random() < 0.5
+  variants = list(legal)
+  if bad: variants[rng.randrange(n)] = "peek"
+  mod = G.load_source(LAMBDA_VAR_SRC, "c09lv")
+  try:
+    orders = [list(variants), list(reversed(variants))] + [rng.sample(variants, n) for _ in range(2)]
+    for vs in orders:
+      sh.count("elaborations"); sh.count("lambda_variant_designs")
+      try:
+        top = mod.LTop(vs); top.elaborate(); oc = None
+      except Exception as e:
+        oc = type(e).__name__; msg = str(e)[:200]
+      ctx = {"variants_in_construction_order": vs, "design_source": LAMBDA_VAR_SRC}
+      if bad:
+        sh.count("lambda_variant_defects_judged")
+        if oc is None:
+          sh.violation("defective-design-elaborated-without-error", dict(ctx, defect="lambda reads a wire of a child component", expected=["SignalTypeError"]), case=("lambdavar", case)); return
+        if oc != "SignalTypeError":
+          sh.violation("defective-design-rejected-with-unrelated-error", dict(ctx, expected=["SignalTypeError"], got=oc, message=msg), case=("lambdavar", case)); return
+      else:
+        if oc is not None:
+          sh.violation("defect-free-design-rejected", dict(ctx, outcome=oc, message=msg), case=("lambdavar", case)); return
+        top.apply(DefaultPassGroup()); top.sim_reset()
+        x = rng.getrandbits(8); top.in_ @= x; top.sim_eval_combinational()
+        want = {"plain": (x + 2) & 255, "biased": (x + 1 + 3) & 255, "input": x ^ 0x55}
+        got = [int(o) for o in top.o]
+        if got != [want[v] for v in vs]:
+          sh.violation("legal-lambda-variant-design-computes-a-wrong-value", dict(ctx, input=x, got=got, expected=[want[v] for v in vs]), case=("lambdavar", case)); return
+  finally:
+    G.unload(mod)
+
+
 def run_shard(sh):
   for case in range(12 if sh.tier == "quick" else 200):
     run_holey(sh, sh.idx * 1000 + case)
+  for case in range(6 if sh.tier == "quick" else 60):
+    run_lambda_variants(sh, sh.idx * 1000 + case)
   per_kind = {}
   for case in range(sh.params["designs"]):
     rng = sh.rng("design", case)
